@@ -5,5 +5,6 @@ Extraction "m.ml" Z.add Z.mul Z.sub Z.div_eucl Z.compare Z.of_nat Z.to_nat Z.opp
   nodes_eq patch_node create_patch decode_ops_exact patch_binary apply_op parse_ops
   merge_pool jbn_merge_patch_pool jbn_merge_patch_node jbn_patch_auto merge_patch_create jbn_merge_patch_path_pool merge_binary
   heap h_empty h_live herr hnode forget heap_of destroy jbn_merge_patch_heap jbn_merge_patch_path_heap
+  iwjsreg_merge_model iwjsreg_merge_scalar
   val doc_val of_val rfc_program merge_spec strict lenient
   wb_enc wb_store jbl_patch_model jbl_merge_model representable.
